@@ -54,7 +54,7 @@ def tree_cases(ctx, pub, tree, tag, every_leaf=True):
     tl = TT.line(tree)
     lv = TT.leaves(tree)
     nt = len(lv) >= 2
-    yield Case(f'tr_root {tl}', 'ms', nontrivial=nt, tag=tag)
+    yield Case(f'tr_root {tl}', 'gms' if len(tl) < 20000 else 'ms', nontrivial=nt, tag=tag)
     yield Case(f'tr_addr {hx(pub64)} S {tl}', 'ms', nontrivial=nt, tag=tag)
     # the address's program/parity, from the implementation, is what every control block must verify against
     prog, odd = pub.to_taproot_hex(TT.to_py(tree))
@@ -64,7 +64,7 @@ def tree_cases(ctx, pub, tree, tag, every_leaf=True):
             if not ans.startswith('ok '): return ('s:echo control-block-raised', 'ok 1')
             return (f's:tr_verify {ans[3:]} {toks_str(leaf)}', f'ok {prog} {1 if odd else 0}')
         ctx.count('control-block'); ctx.count('odd-output' if odd else 'even-output')
-        yield Case(f'tr_cb {hx(pub64)} {tl} {k} {1 if odd else 0}', 'ms', nontrivial=nt or odd, tag=tag + '-cb', spec=spec)
+        yield Case(f'tr_cb {hx(pub64)} {tl} {k} {1 if odd else 0}', 'gms' if len(tl) < 20000 else 'ms', nontrivial=nt or odd, tag=tag + '-cb', spec=spec)
 
 
 def cases(ctx):
@@ -123,7 +123,7 @@ def cases(ctx):
         yield Case(f'tapleaf {toks_str(toks)}', 'g', nontrivial=True, tag='gen-hash')
     # out-of-range leaf index: the code returns a path with no target (model correspondence only)
     tree = TT.fill(('T', ('L',), ('L',)), iter([['OP_1'], ['OP_2']]))
-    yield Case(f'tr_cb {hx(keys[0].to_bytes())} {TT.line(tree)} 5 0', 'm', nontrivial=True, tag='bad-index', domain=False)
+    yield Case(f'tr_cb {hx(keys[0].to_bytes())} {TT.line(tree)} 5 0', 'gm', nontrivial=True, tag='bad-index', domain=False)
 
 
 def impl(op, a, ctx):
